@@ -314,7 +314,64 @@ theorem CompareNan.hook_canon (n : Node) (x : Expect) (hx : x ∈ Canon.compareN
 
 /-! ### suspicious_reverse_loop -/
 
-/-- since /repo 9a12c1a every reported bound denotes a value `≤ 1` (no hypothesis needed) -/
+/-- the by-value reading of a bound's text: it denotes a value `≤ 1` -/
+def leOneText (text : String) : Bool :=
+  match numValue text with
+  | some v => v.denotesLeOne
+  | none => false
+
+theorem denotesLeOne_int (v : Nat) : (⟨v, 1⟩ : NumVal).denotesLeOne = decide (v ≤ 1) := by
+  simp only [NumVal.denotesLeOne]
+  have h53 : (2 : Nat) ^ 53 = 9007199254740992 := by decide
+  rw [h53]
+  by_cases h : v ≤ 1
+  · have : v * 9007199254740992 ≤ (9007199254740992 + 1) * 1 := by omega
+    simp [h, this]
+  · have : ¬ (v * 9007199254740992 ≤ (9007199254740992 + 1) * 1) := by omega
+    simp [h, this]
+
+/-- since /repo fe466a6 the lint's bound test IS the by-value test, for every spelling -/
+theorem numberValueLeOne_eq (text : String) : numberValueLeOne text = leOneText text := by
+  unfold numberValueLeOne leOneText numValue
+  split
+  · rename_i x hex hcs
+    rw [hcs]
+    by_cases hx : x = 'x' ∨ x = 'X'
+    · have hxb : (x = 'x' || x = 'X') = true := by rcases hx with rfl | rfl <;> decide
+      rw [if_pos hxb]
+      simp only [hexValue, hxb, if_true]
+      generalize readHexDigits hex 0 0 = rd
+      obtain ⟨v, n, rest⟩ := rd
+      by_cases hcond : (decide (n = 0) || !rest.isEmpty) = true
+      · rw [if_pos hcond]
+        simp only [decimalValue_hexPrefix x hx hex]
+        simp only [Bool.or_eq_true, decide_eq_true_eq, Bool.not_eq_true'] at hcond
+        rcases hcond with h | h <;> simp [h]
+      · rw [if_neg hcond]
+        simp only [Bool.or_eq_true, decide_eq_true_eq, Bool.not_eq_true', not_or, Bool.not_eq_false] at hcond
+        simp only [denotesLeOne_int]
+        by_cases hv : v ≤ 1
+        · have : v < 2 ^ 64 := Nat.lt_of_le_of_lt hv (by decide)
+          simp [hcond.1, hcond.2, hv, this]
+        · simp [hv]
+    · have hxb : (x = 'x' || x = 'X') = false := by
+        simp only [not_or] at hx
+        simp [hx.1, hx.2]
+      have hnone : hexValue ('0' :: x :: hex) = none := by simp [hexValue, hxb]
+      rw [if_neg (by simp [hxb]), hnone]
+      simp only [rustF64LeOne, hcs]
+      cases decimalValue ('0' :: x :: hex) <;> rfl
+  · rename_i hne
+    have hnone : hexValue text.toList = none := by
+      unfold hexValue
+      split
+      · rename_i x r hcs
+        exact absurd hcs (hne x r)
+      · rfl
+    rw [hnone]
+    simp only [rustF64LeOne]
+    cases decimalValue text.toList <;> rfl
+
 theorem SuspiciousReverseLoop.hook_sound (n : Node) (g : Diag) (h : g ∈ SuspiciousReverseLoop.hook n) :
     Doc.suspiciousReverseLoop n g = true := by
   cases n with
@@ -328,45 +385,48 @@ theorem SuspiciousReverseLoop.hook_sound (n : Node) (g : Diag) (h : g ∈ Suspic
         obtain ⟨hle, hg⟩ := h
         cases a <;> simp [SuspiciousReverseLoop.isHashOp] at ha
         case un usp op inner =>
-          simp only [rustF64LeOne] at hle
-          cases hd : decimalValue t.text.toList with
-          | none => simp [hd] at hle
-          | some v =>
-            simp [hd] at hle
-            simp [Doc.suspiciousReverseLoop, ha, numValue_of_decimal _ _ hd, hle, hg, Expr.span]
+          rw [numberValueLeOne_eq] at hle
+          simp only [leOneText] at hle
+          cases hn : numValue t.text with
+          | none => simp [hn] at hle
+          | some w =>
+            simp [hn] at hle
+            simp [Doc.suspiciousReverseLoop, ha, hn, hle, hg, Expr.span]
   | expr e => simp [SuspiciousReverseLoop.hook] at h
   | table sp fs => simp [SuspiciousReverseLoop.hook] at h
   | call c => simp [SuspiciousReverseLoop.hook] at h
 
-theorem rustF64LeOne_one : rustF64LeOne "1" = true := by decide
-
-theorem SuspiciousReverseLoop.hook_canon (n : Node) (x : Expect) (hx : x ∈ Canon.suspiciousReverseLoop n) :
+/-- a bound denoting a value `≤ 1` is reported however it is spelled (decimal, fraction, exponent, hexadecimal) -/
+theorem SuspiciousReverseLoop.hook_byValue (n : Node) (x : Expect) (hx : x ∈ ByValue.suspiciousReverseLoop n) :
     ∃ g ∈ SuspiciousReverseLoop.hook n, x.matches g = true := by
+  unfold ByValue.suspiciousReverseLoop at hx
+  split at hx
+  · rename_i sp v cm usp op inner t b
+    simp at hx
+    obtain ⟨⟨hop, hle⟩, rfl⟩ := hx
+    refine ⟨{ code := "suspicious_reverse_loop", primary := ⟨usp.first, t.idx⟩, msg := SuspiciousReverseLoop.message }, ?_, matches_self _ _ rfl⟩
+    have : numberValueLeOne t.text = true := by
+      rw [numberValueLeOne_eq]
+      simp only [leOneText]
+      exact hle
+    simp [SuspiciousReverseLoop.hook, SuspiciousReverseLoop.isHashOp, hop, this, Expr.span]
+  · simp at hx
+
+theorem numValue_one : numValue "1" = some ⟨1, 1⟩ := by decide
+
+theorem Canon.suspiciousReverseLoop_sub (n : Node) (x : Expect) (hx : x ∈ Canon.suspiciousReverseLoop n) :
+    x ∈ ByValue.suspiciousReverseLoop n := by
   unfold Canon.suspiciousReverseLoop at hx
   split at hx
   · rename_i sp v cm usp op inner t b
     simp at hx
     obtain ⟨⟨hop, ht⟩, rfl⟩ := hx
-    refine ⟨{ code := "suspicious_reverse_loop", primary := ⟨usp.first, t.idx⟩, msg := SuspiciousReverseLoop.message }, ?_, matches_self _ _ rfl⟩
-    simp [SuspiciousReverseLoop.hook, SuspiciousReverseLoop.isHashOp, hop, ht, rustF64LeOne_one, Expr.span]
+    simp [ByValue.suspiciousReverseLoop, hop, ht, numValue_one, denotesLeOne_int]
   · simp at hx
 
-/-- by value, for every bound spelled in decimal (the remaining miss is a hexadecimal spelling of 0 / 1) -/
-theorem SuspiciousReverseLoop.hook_byValue_decimal (n : Node) (x : Expect) (hx : x ∈ ByValue.suspiciousReverseLoop n)
-    (hdec : ∀ sp v cm a t b, n = .stmt (.numFor sp v cm a (.num t) .none b) → (decimalValue t.text.toList).isSome = true) :
-    ∃ g ∈ SuspiciousReverseLoop.hook n, x.matches g = true := by
-  unfold ByValue.suspiciousReverseLoop at hx
-  split at hx
-  · rename_i sp v cm usp op inner t b
-    have hd := hdec sp v cm _ t b rfl
-    cases hdv : decimalValue t.text.toList with
-    | none => simp [hdv] at hd
-    | some w =>
-      simp [numValue_of_decimal _ _ hdv] at hx
-      obtain ⟨⟨hop, hle⟩, rfl⟩ := hx
-      refine ⟨{ code := "suspicious_reverse_loop", primary := ⟨usp.first, t.idx⟩, msg := SuspiciousReverseLoop.message }, ?_, matches_self _ _ rfl⟩
-      simp [SuspiciousReverseLoop.hook, SuspiciousReverseLoop.isHashOp, hop, rustF64LeOne, hdv, hle, Expr.span]
-  · simp at hx
+theorem SuspiciousReverseLoop.hook_canon (n : Node) (x : Expect) (hx : x ∈ Canon.suspiciousReverseLoop n) :
+    ∃ g ∈ SuspiciousReverseLoop.hook n, x.matches g = true :=
+  SuspiciousReverseLoop.hook_byValue n x (Canon.suspiciousReverseLoop_sub n x hx)
 
 /-! ### constant_table_comparison -/
 
